@@ -177,7 +177,8 @@ Inductive step :=
 | SEnactOne         (* enact one record (hook H3) *)
 | SEnactAll         (* instrumentation enact_logs: to the end of one log file *)
 | SClean            (* clean_logs *)
-| SReopen.          (* drop the handle (kill_logs) and open again *)
+| SReopen           (* drop the handle (kill_logs) and open again *)
+| SReindex.         (* process_reindex: moves index entries between index generations; no logical change *)
 
 Definition set_ov s x := {| ov := x; queue := queue s; next_cid := next_cid s; lo := lo s; tb := tb s; next_rid := next_rid s;
   appending := appending s; readq := readq s; reading := reading s; dirty := dirty s; bg_err := bg_err s |}.
@@ -293,6 +294,7 @@ Definition do_step (cfg : list ccfg) (s : pstate) (st : step) : pstate * N :=
   | SEnactAll => (enact_all s, 0)
   | SClean => (clean s, 0)
   | SReopen => (reopen cfg s, 0)
+  | SReindex => (s, 0)
   end.
 
 Fixpoint run (cfg : list ccfg) (s : pstate) (steps : list step) : pstate :=
